@@ -33,22 +33,23 @@ type lockT struct {
 }
 
 type factT struct {
-	fn     string
-	kind   string // R | W | SEND | RECV | GO | OPS | CLOSE
-	strct  string
-	field  string
-	base   string
-	locks  []lockT
-	fresh  bool // the accessed object was allocated in this function (not yet shared)
-	line   int
+	fn    string
+	kind  string // R | W | SEND | RECV | GO | OPS | CLOSE
+	strct string
+	field string
+	base  string
+	locks []lockT
+	fresh bool // the accessed object was allocated in this function (not yet shared)
+	line  int
 }
 
 type lfCtx struct {
-	p     *pkgInfo
-	fn    string
-	recv  string // name of the method's receiver ("" for functions)
-	facts *[]factT
-	fresh map[string]bool
+	p        *pkgInfo
+	fn       string
+	recv     string // name of the method's receiver ("" for functions)
+	facts    *[]factT
+	fresh    map[string]bool
+	deferred []lockT // mutexes unlocked by a defer
 }
 
 // the receiver is written "self" in bases and lock objects, whatever the method calls it
@@ -214,6 +215,22 @@ func (c *lfCtx) write(lhs ast.Expr, locks []lockT) {
 	}
 }
 
+// heldAtReturn records every mutex still held where the function returns (deferred unlocks excepted):
+// a critical section that is left without its Unlock
+func (c *lfCtx) heldAtReturn(locks []lockT, pos token.Pos) {
+	for _, h := range locks {
+		def := false
+		for _, d := range c.deferred {
+			if d == h {
+				def = true
+			}
+		}
+		if !def {
+			c.add("HELDRET", h.owner, "", h.base, locks, pos)
+		}
+	}
+}
+
 // stmt processes one statement and returns the lockset after it
 func (c *lfCtx) stmt(s ast.Stmt, locks []lockT) []lockT {
 	switch x := s.(type) {
@@ -239,7 +256,8 @@ func (c *lfCtx) stmt(s ast.Stmt, locks []lockT) []lockT {
 		}
 		c.reads(x.X, locks)
 	case *ast.DeferStmt:
-		if _, isLock, ok := c.lockCall(x.Call); ok && !isLock {
+		if l, isLock, ok := c.lockCall(x.Call); ok && !isLock {
+			c.deferred = append(c.deferred, l)
 			return locks // defer x.Unlock(): the lock stays held to the end of the function
 		}
 		c.reads(x.Call, locks)
@@ -291,6 +309,7 @@ func (c *lfCtx) stmt(s ast.Stmt, locks []lockT) []lockT {
 		for _, r := range x.Results {
 			c.reads(r, locks)
 		}
+		c.heldAtReturn(locks, x.Pos())
 	case *ast.BlockStmt:
 		return c.block(x.List, locks)
 	case *ast.IfStmt:
@@ -394,6 +413,11 @@ func (c *lfCtx) block(list []ast.Stmt, locks []lockT) []lockT {
 	return locks
 }
 
+func endsInReturn(s ast.Stmt) bool {
+	_, ok := s.(*ast.ReturnStmt)
+	return ok
+}
+
 func coqString(s string) string {
 	return "\"" + strings.ReplaceAll(s, "\"", "\"\"") + "\""
 }
@@ -421,7 +445,10 @@ func genLockFacts(repo, out string) {
 				recv = fd.Recv.List[0].Names[0].Name
 			}
 			c := &lfCtx{p: p, fn: funcName(fd), recv: recv, facts: &facts, fresh: map[string]bool{}}
-			c.block(fd.Body.List, nil)
+			end := c.block(fd.Body.List, nil)
+			if n := len(fd.Body.List); n == 0 || !endsInReturn(fd.Body.List[n-1]) {
+				c.heldAtReturn(end, fd.Body.Rbrace)
+			}
 		}
 	}
 	// canonical order, duplicates merged; line numbers only in comments
@@ -435,11 +462,11 @@ func genLockFacts(repo, out string) {
 	var b bytes.Buffer
 	b.WriteString("(* GENERATED by /verif/gen (lockfacts) from /repo's working tree on every check run. Do not edit. *)\n")
 	b.WriteString("From Coq Require Import String List Bool.\nImport ListNotations.\nLocal Open Scope string_scope.\n\n")
-	b.WriteString("Inductive akind := AR | AW | ASend | ARecv | AGo | AOps | AClose | ACall.\n")
+	b.WriteString("Inductive akind := AR | AW | ASend | ARecv | AGo | AOps | AClose | ACall | AHeldRet.\n")
 	b.WriteString("Record lockfact := mkLF { lf_fn : string; lf_kind : akind; lf_struct : string; lf_field : string; lf_base : string;\n")
 	b.WriteString("  lf_locks : list (string * string) (* owner struct, locked object *); lf_fresh : bool }.\n\n")
 	b.WriteString("Definition lock_facts : list lockfact := [\n")
-	kindName := map[string]string{"R": "AR", "W": "AW", "SEND": "ASend", "RECV": "ARecv", "GO": "AGo", "OPS": "AOps", "CLOSE": "AClose", "CALL": "ACall"}
+	kindName := map[string]string{"R": "AR", "W": "AW", "SEND": "ASend", "RECV": "ARecv", "GO": "AGo", "OPS": "AOps", "CLOSE": "AClose", "CALL": "ACall", "HELDRET": "AHeldRet"}
 	seen := map[string]bool{}
 	first := true
 	for _, f := range facts {
